@@ -127,7 +127,9 @@ def _merge(outs):
         for e in d["enums"]:
             fb["enums"].setdefault(e["name"], e)
         for v in d["vars"]:
-            fb["vars"].setdefault(v["n"], v)
+            cur = fb["vars"].get(v["n"])
+            if cur is None or ("init" not in cur and "init" in v):
+                fb["vars"][v["n"]] = v  # prefer the defining declaration (extern declarations carry no initialiser)
     return fb
 
 
@@ -153,7 +155,7 @@ def ensure(tier="quick", log=sys.stderr):
     units = library_units()
     tus = sorted(os.path.join(VERIF, "tu", f) for f in os.listdir(os.path.join(VERIF, "tu")) if f.endswith(".cc"))
     fixtures = sorted(os.path.join(VERIF, "fixtures", f) for f in os.listdir(os.path.join(VERIF, "fixtures")) if f.endswith(".cc"))
-    key = input_hash("v3")
+    key = input_hash("v4")
     cdir = os.path.join(BUILD, "cache", key)
     os.makedirs(cdir, exist_ok=True)
     lock = open(os.path.join(BUILD, "cache", "lock"), "w")
